@@ -2802,7 +2802,7 @@ class WBEMConnection:  # pylint: disable=too-many-instance-attributes
         enumeration_context = None
         end_of_sequence_found = False  # flag True if found and valid value
         enumeration_context_found = False  # flag True if ec tuple found
-        for p in result:
+        for p in result or []:  # None if IMETHODRESPONSE has no children
             if p[0] == 'EndOfSequence':
                 if isinstance(p[2], str):
                     p2 = p[2].lower()
